@@ -181,6 +181,10 @@ def rand_value(R, w):
     return R.getrandbits(w)
 
 
+# random runs: the design is reset during the first BUSY_RESET stimulus cycles (reset = 1 under random inputs)
+BUSY_RESET = 2
+
+
 def rand_stimulus(R, in_ports, ncyc, hold=0.3):
     """in_ports: [(path, 'in', Type)] without clk.  reset is raised rarely."""
     cur = {}
@@ -265,7 +269,7 @@ def prepare(spec, backend, nrand, ncyc, seed_tag="", want_text=False, configure=
         out["nodes"] = _nodes(flat)
         out["traces"].append(H.drivers_trace(flat, tag=name + "/drivers"))
         flat_sv = None
-        if cross and backend != H.SV:
+        if cross and backend != H.SV and not (out.get("meta") or {}).get("nocross"):
             # the SystemVerilog text of the same design, validated on the same recorded vectors (C12)
             try:
                 text_sv, top_sv = H.translate(factory, H.SV, configure)
@@ -296,15 +300,17 @@ def prepare(spec, backend, nrand, ncyc, seed_tag="", want_text=False, configure=
                     top = factory()
                     top.elaborate()
                     ports0 = [p for p in H.walk_ports(top) if p[0] != ("clk",) and p[1] == "in"]
-                sets.append(("random-%d" % k, rand_stimulus(R, ports0, ncyc)))
+                sets.append(("random-%d" % k, rand_stimulus(R, ports0, ncyc + BUSY_RESET)))
             if not sets:
                 sets.append(("reset-only", []))
             for label, stim in sets:
-                ports, cycles, aborted = H.record(factory, stim, tvres=tvres if label == "repo-vectors" else None)
+                rnd = label.startswith("random-")
+                ports, cycles, aborted = H.record(factory, stim, tvres=tvres if label == "repo-vectors" else None,
+                                                  busy_reset=BUSY_RESET if rnd else 0)
                 if aborted:
                     out["aborted"] += 1
                     out["info"] += " %s aborted after %d cycles: %s;" % (label, len(cycles), aborted)
-                    if len(cycles) <= 3:
+                    if len(cycles) <= (0 if rnd else 3):
                         out["nosim"] = aborted
                 if cycles:
                     tr = H.make_trace(flat, backend, ports, cycles, tag="%s/%s" % (name, label))
